@@ -55,7 +55,8 @@ pub fn replay(property: &str, case: &Json, ctx: &Ctx) -> Option<Report> {
     if case.get("kind").and_then(|k| k.as_str()) == Some("first-use") {
         let what = case.get("what").and_then(|w| w.as_str()).unwrap_or("");
         if ctx.in_child {
-            return Some(firstuse::child_body(what));
+            let names: Vec<String> = case.get("names").and_then(|n| n.as_arr()).map(|a| a.iter().filter_map(|s| s.as_str().map(|s| s.to_string())).collect()).unwrap_or_default();
+            return Some(firstuse::child_body(what, &names));
         }
         let mut report = Report::new();
         firstuse::run_children(ctx, what, 12, &mut report);
